@@ -16,7 +16,8 @@ def replay_file(path):
     kwargs = cex.get("kwargs") or {}
     if cex.get("engine") == "symx":
         from vf import symx
-        v, _ = symx.run_concrete(lambda sp: fn(sp, **kwargs), cex["model"])
+        ck = {k: v for k, v in kwargs.items() if not k.startswith("_")}
+        v, _ = symx.run_concrete(lambda sp: fn(sp, **ck), cex["model"])
         if v is None:
             print(f"replay: property holds for this case on the current tree ({path})")
             return 0
